@@ -287,6 +287,21 @@ Definition run_pset (caps pts oracle value : bytes) : bytes :=
       "J "%lb ++ render_json j ++ sp ++ verdict true j ++ sp ++ verdict true j ++ " C "%lb ++ show_hex (render_cbor b) ++ sp ++ verdict false b
   | _, _, _, _ => err "parse" end.
 
+(* C20 lc <constructor> <n>: LockTime through a constructor (from_consensus; from_height / Blocks / From<Height> check n < threshold;
+   from_time / Seconds / From<Time> check n >= threshold), printed and parsed back *)
+Definition run_locktime_ctor (ctor n : bytes) : bytes :=
+  match N_of_dec n with
+  | None => err "value"
+  | Some k =>
+      let l : option locktime :=
+        if is_ty ctor "from_consensus" then Some (locktime_from_consensus k)
+        else if is_ty ctor "from_height" || is_ty ctor "Blocks" || is_ty ctor "From<Height>" then (if k <? C20_LOCK_TIME_THRESHOLD then Some (Blocks k) else None)
+        else if is_ty ctor "from_time" || is_ty ctor "Seconds" || is_ty ctor "From<Time>" then (if C20_LOCK_TIME_THRESHOLD <=? k then Some (Seconds k) else None)
+        else None in
+      match l with
+      | None => "none"%lb
+      | Some l => "ok "%lb ++ show_locktime l ++ sp ++ show_hex (print_locktime l) ++ sp ++ show_res show_locktime (parse_locktime (print_locktime l)) end end.
+
 (* C20 lj <Variant> <n>: LockTime from the JSON {"<Variant>": n}, printed and parsed back *)
 Definition run_locktime_json (variant n : bytes) : bytes :=
   match N_of_dec n with
@@ -300,6 +315,7 @@ Definition run (args : list bytes) : bytes :=
   | [k; ty; a] =>
       if bytes_eqb k "tp"%lb then match hexarg a with Some s => run_parse ty s | None => err "hex" end
       else if bytes_eqb k "lj"%lb then run_locktime_json ty a
+      else if bytes_eqb k "lc"%lb then run_locktime_ctor ty a
       else if bytes_eqb k "tr"%lb then
         match run_print ty a with
         | Some s => show_hex s ++ sp ++ run_parse ty s
